@@ -305,7 +305,7 @@ theorem later_last3x {Lx Ly Lz : Nat} (hLx : 2 ≤ Lx) {x y z b u v w : Int} (hs
     · exact hne ⟨rfl, rfl, rfl, rfl⟩
   · omega
 
-theorem later_last3z {Lx Ly Lz : Nat} (hLx : 2 ≤ Lx) (hex : Lx % 2 = 0) {x y z b u v w : Int}
+theorem later_last3z {Lx Ly Lz : Nat} (_hLx : 2 ≤ Lx) (hex : Lx % 2 = 0) {x y z b u v w : Int}
     (hs : TK Lx Ly Lz 3 x y z)
     (ht : TK Lx Ly Lz b u v w) (hne : ¬ ((3 : Int) = b ∧ x = u ∧ y = v ∧ z = w))
     (hle : mu Lx Ly Lz [3, x, y, z] ≤ mu Lx Ly Lz [b, u, v, w])
